@@ -582,6 +582,10 @@ def rule_F2(prog):
         if x != "lines":
             ok = ok and len(rem_args) == 1 and rem_args[0] == ["diff", "old", "new"]
         rets = find_nodes(fn.hir["body"], lambda n: n["k"] == "ret", stop=lambda n: n["k"] == "closure")
+        # ... and none in the private helper that builds the remapper and collects the slices
+        for g in _local_callees(prog, fn):
+            if g.hir and g.hir.get("body") and find_nodes(g.hir["body"], lambda n: n["k"] == "call" and origin(n["f"]).endswith("from_text_diff")):
+                rets += find_nodes(g.hir["body"], lambda n: n["k"] == "ret", stop=lambda n: n["k"] == "closure")
         if rets:
             ok = False
         r.ob(ok, "utils::diff_%s: %s remapper%s early returns: %d" % (x, [(c["name"], [origin(a) for a in c["args"]]) for c in calls],
@@ -3304,6 +3308,106 @@ def rule_F32(prog):
                 r.find(fn.path, "slice-filed-under:%s" % ia,
                        "the pair `(%s, %s[%s].slice(..))` files a piece of string `%s` under index `%s`: the piece is attributed "
                        "to another line than the one it was cut from" % (ia, origin(recv["base"]), ij, ij, ia), file=fn.file, line=tup.get("line", fn.line))
+    return r
+
+
+# ---------------------------------------------------------------- F33: IdentifyDistinct numbers both sides from one counter and one map
+def rule_F33(prog):
+    r = RuleResult("F33", "IdentifyDistinct::new interns the items of both sequences into ONE map with ids from ONE counter: the "
+                          "function creates a single HashMap; every `c = c + step` in it (closures included) advances the same "
+                          "local, which is a `let mut` of the function initialised once, from `Default::default()`; equal ids "
+                          "therefore mean equal items across and within the sides")
+    for fn in prog.user_fns():
+        if fn.kind == "Closure" or fn.name != "new" or not fn.impl or "IdentifyDistinct" not in str(fn.impl.get("self_ty")) or not fn.hir or not fn.hir.get("body"):
+            continue
+        body = fn.hir["body"]
+        lets = _lets(fn)
+        r.instances += 1
+        problems = []
+        maps = [n for n in find_nodes(body, lambda n: n["k"] == "call" and re.match(r"^std::collections::(HashMap|BTreeMap)<", str(n.get("ty", ""))) and
+                                      origin(n["f"]).rsplit("::", 1)[-1] in ("new", "with_capacity", "default", "with_hasher", "with_capacity_and_hasher"))]
+        if len(maps) != 1:
+            problems.append("%d maps are created (one shared map is needed so that an item of `new` finds the id of the same item of `old`)" % len(maps))
+        incs = []
+        for n in find_nodes(body, lambda n: n["k"] in ("assign", "assignop")):
+            lhs = unwrap(n["l"])
+            if n["k"] == "assignop":
+                if n.get("op") in ("+=", "+"):
+                    incs.append((lhs, n))
+                continue
+            rhs = unwrap(n["r"])
+            if isinstance(rhs, dict) and rhs.get("k") == "binary" and rhs["op"] == "+":
+                lo = origin(lhs)
+                if lo in (origin_deep(rhs["l"], lets), origin_deep(rhs["r"], lets), origin(rhs["l"]), origin(rhs["r"])):
+                    incs.append((lhs, n))
+        # only counters of the id type (not usize offsets)
+        def is_id_ty(e):
+            t = str(unwrap(e).get("ty", ""))
+            return t in ("Int", "&mut Int") or t.endswith("Int")
+        incs = [(l, n) for l, n in incs if is_id_ty(l) or is_id_ty(n.get("r", {})) ]
+        places = {}
+        for l, n in incs:
+            places.setdefault(origin(l), []).append(n)
+        if not incs:
+            problems.append("no id counter found (`next_id = next_id + step`)")
+        elif len(places) != 1:
+            problems.append("ids come from %d different counters (%s)" % (len(places), ", ".join(sorted(places))))
+        else:
+            (pl, ns), = places.items()
+            root = unwrap(ns[0]["l"])
+            while isinstance(root, dict) and root.get("k") in ("unary", "field", "droptemps") and (root.get("x") is not None or root.get("base") is not None):
+                root = unwrap(root.get("x") if root.get("x") is not None else root.get("base"))
+            res = root.get("res", {}) if isinstance(root, dict) and root.get("k") == "path" else {}
+            init = lets.get(res.get("id")) if res.get("k") == "local" else None
+            if init is None:
+                problems.append("the id counter `%s` is not a `let mut` of the function initialised in place (a counter handed "
+                                "around as closure state can be restarted)" % pl)
+            else:
+                io = origin(init)
+                if not re.search(r"(^|::)default\(\)$", io):
+                    problems.append("the id counter `%s` starts from `%s`, not from Default::default()" % (pl, io[:60]))
+        r.ob(not problems, "%s: one map, one counter: %s" % (fn.path, problems or "ok"))
+        if problems:
+            r.find(fn.path, "id-counter", "IdentifyDistinct::new: " + "; ".join(problems), file=fn.file, line=fn.line)
+    return r
+
+
+# ---------------------------------------------------------------- F34: an inline change misses its newline iff its LAST segment does
+def rule_F34(prog):
+    r = RuleResult("F34", "InlineChange::missing_newline is decided by the last segment of the line, whatever its emphasis: the "
+                          "function (with its private helpers and closures) asks `ends_with_newline` of `values.last()` -- it never "
+                          "selects a segment by a predicate (find / filter / position / skip_while ..) and never reads the "
+                          "emphasis flag")
+    SELECT = {"find", "find_map", "rfind", "filter", "filter_map", "position", "rposition", "skip_while", "take_while",
+              "max_by", "max_by_key", "min_by", "min_by_key", "nth", "nth_back", "first", "skip", "step_by"}
+    for fn in prog.user_fns():
+        if fn.kind == "Closure" or fn.name != "missing_newline" or not fn.impl or "InlineChange" not in str(fn.impl.get("self_ty")):
+            continue
+        if not fn.hir or not fn.hir.get("body"):
+            continue
+        r.instances += 1
+        bodies = [fn.hir["body"]] + [g.hir["body"] for g in _local_callees(prog, fn) if g.hir and g.hir.get("body")]
+        problems = []
+        asks = 0
+        for b in bodies:
+            for n in find_nodes(b, lambda n: n["k"] in ("mcall", "call")):
+                nm = n["name"] if n["k"] == "mcall" else origin(n["f"]).rsplit("::", 1)[-1]
+                if nm == "ends_with_newline":
+                    asks += 1
+                if nm in SELECT:
+                    problems.append("a segment is selected with `%s`" % nm)
+            # the emphasis flag: field 0 of a (bool, &T) element, or a bool binding of a tuple pattern over such an element
+            for n in find_nodes(b, lambda n: n["k"] == "field" and n.get("name") == "0" and str(n.get("ty", "")) == "bool"):
+                problems.append("the emphasis flag is read")
+            for n in find_nodes(b, lambda n: n.get("k") == "bind" and str(n.get("ty", "")) == "bool" and not str(n.get("name", "")).startswith("_")):
+                problems.append("the emphasis flag is bound (`%s`)" % n.get("name"))
+        if asks == 0:
+            problems.append("`ends_with_newline` is never asked")
+        problems = sorted(set(problems))
+        r.ob(not problems, "%s: %s" % (fn.path, problems or "asks ends_with_newline of the last segment"))
+        if problems:
+            r.find(fn.path, "missing-newline-segment", "InlineChange::missing_newline: " + "; ".join(problems) +
+                   " -- a line whose last segment is emphasised and lacks the terminator would not be reported", file=fn.file, line=fn.line)
     return r
 
 
